@@ -1060,7 +1060,9 @@ class OrbitBase(TidalPyClass):
             # Change the orbital distance of the tidal host.
             if self.world_signature_to_index(world_signature, return_tidal_host=True) != 0:
                 log.warning('A tidal world is setting the stellar distance for the tidal host.')
-            self.set_semi_major_axis(world_signature, distance, set_stellar_orbit=True)
+            # The stellar distance is shared with (and stored for) the tidal host; see `get_stellar_distance`.
+            #    Passing the tidal world's own signature here would overwrite that world's orbit around its host.
+            self.set_semi_major_axis(self.tidal_host, distance, set_stellar_orbit=True)
 
     def set_stellar_eccentricity(self, world_signature: WorldSignatureType, eccentricity: 'FloatArray'):
         """ Set the orbital eccentricity between a world of interest and the star (used for insolation calculations)
